@@ -198,7 +198,12 @@ def run(ctx):
                     g.update(case=f['case'], detail=f['detail'], size=f['size'])
     divergences.sort(key=lambda d: (len(d['case']['schedule']), pg.scenario_size(d['case']['scenario'])))
     # smallest failing input first; failures that are not the recorded hook finding before it
-    fl = sorted(failures.values(), key=lambda f: (f['signature'].startswith('hook-outside-scope:'), tuple(f['size'])))
+    prio = ['current-wrong', 'scope-assertion-failed', 'loop-context-wrong', 'stack-not-restored', 'hook-current-unexpected']
+
+    def rank(f):
+        head = f['signature'].split(':')[0]
+        return (head == 'hook-outside-scope', prio.index(head) if head in prio else len(prio), tuple(f['size']))
+    fl = sorted(failures.values(), key=rank)
     for f in fl:
         f['detail'] = dict(f['detail'], occurrences=f.pop('count'))
         f.pop('size')
